@@ -430,6 +430,9 @@ var keywordStrings = []string{"on", "query", "fragment", "implements", "type", "
 func lexemeOfIn(k string, i, layout int) (text, val string) {
 	if layout == 2 || layout == 5 {
 		kw := keywordStrings[i%len(keywordStrings)]
+		if layout == 2 {
+			kw = "on" // the one keyword that is expected right after a name (fragment / directive definitions)
+		}
 		switch k {
 		case "String":
 			return `"` + kw + `"`, kw
